@@ -868,8 +868,15 @@ func (i *interpreter) unop(fr *frame, instr *ssa.UnOp, x value) value {
 		return i.symUnop(instr.Op, s)
 	}
 	switch instr.Op {
-	case token.ARROW: // receive
-		panic(engineError{"channel receive is not supported at " + i.where()})
+	case token.ARROW: // receive: only from a closed channel (a done flag), which yields the zero value at once
+		if c, ok := x.(*chanStub); ok && c != nil && c.closed {
+			v := zero(instr.X.Type().Underlying().(*types.Chan).Elem())
+			if instr.CommaOk {
+				return tuple{v, false}
+			}
+			return v
+		}
+		panic(engineError{"channel receive that would block is not supported at " + i.where()})
 	case token.SUB:
 		switch x := x.(type) {
 		case int:
@@ -1037,7 +1044,16 @@ func callBuiltin(caller *frame, fn *ssa.Builtin, args []value) value {
 		return copy(args[0].([]value), src.([]value))
 
 	case "close": // close(chan T)
-		panic(engineError{"channels are not supported"})
+		// channels are modelled as done flags only: they can be closed (once) and then received from
+		c, ok := args[0].(*chanStub)
+		if !ok || c == nil {
+			panic(targetRuntimeError("close of nil channel"))
+		}
+		if c.closed {
+			panic(targetRuntimeError("close of closed channel"))
+		}
+		c.closed = true
+		return nil
 
 	case "delete": // delete(map[K]value, K)
 		switch m := args[0].(type) {
